@@ -49,6 +49,9 @@ CLAIMED = {
  'C05': dict(
    text="Proof over the reals for all positive inputs: for every pair of relation constructors discovered from the declared signatures with C from (A, B, ...) and A from (C, B, ...) (~400 pairs incl. one-argument and three-/four-argument families) the composition returns the original A wherever both relations are defined; planar -> 3-D -> planar embeddings of vectors, directions and every planar quantity are the identity and the embedded z component is exactly zero (z3 nlsat on VCs from the instantiated bodies).",
    ref="DESIGN.md 5 C05", note="REAL semantics: the 'few ulps' bound is not machine-checked (and cannot hold relative to a for additive pairs when a << b). Projections (3-D -> planar) are not required to be invertible. Compositions are required only where no divisor on the way is zero."),
+ 'C10': dict(
+   text="Proof over the reals: every member of Direction / PlanarDirection that writes the stored vector (found by scanning the lowered bodies; the base classes expose no public writer) leaves |d|^2 == 1 or d == 0 - unit length for non-zero input, zero for zero input, parallel to and pointing the same way as the input, invariant under positive rescaling; for all 17 vector quantity types Magnitude() has the scalar type of the same declared dimension set and the Euclidean norm as value, typed accessors return the matching component, and Q(q.Magnitude(), q.Direction()) == q for |q| > 0 (z3 nlsat).  Bit-precise (CBMC contracts on Set): the zero vector gives exactly +0 components; each component keeps the sign of the input component.",
+   ref="DESIGN.md 5 C10", note="The 'four ulps' constant and 'exactly for power-of-two factors' are NOT machine-checked (REAL semantics; 5 roundings on the normalisation path). The sign obligation uses the libm sqrt contract (r > 0 for x > 0) instead of CBMC's sqrt model."),
 }
 REASONS = {'C19': "static-initialisation order is a property of the compilers' start-up schedule, not of any function's pre/postcondition; CBMC has no model of C++ dynamic initialisation and contracts cannot express it (DESIGN.md 6)"}
 checks = []
